@@ -207,6 +207,52 @@ def K16_system_rows(rep, flow: Flow):
                                 rep.finding("K16", f"{f.fq}:{pyfacts.norm_stmt(st)}", f"{pyfacts.where(f, loop)}: `{st.targets[0].value.id}` is allocated with {ast.unparse(alloc)} rows (one block per `{N}`) and filled at row `{ast.unparse(idx)}`, but `{iv}` only runs over range({bound.id}): for {bound.id} != {N} some blocks of the system stay zero / are out of range [{pyfacts.norm_stmt(st)}]")
 
 
+def K17_elimination_bounds(rep, flow: Flow, fqs=("f2_algebra.rref", "f2_algebra.rref_and_basis_change")):
+    """the Gaussian eliminations run their row / column cursors up to the matrix' own dimensions: in a function that unpacks
+    `rows, cols = A.shape`, a while-condition comparing a cursor with `rows - 1` (or any other offset of a dimension) leaves
+    the last row / column out (or runs past it)"""
+    rep.rule("K17", "elimination cursors are bounded by the dimensions themselves: every `cursor < bound` in a while-condition of rref / rref_and_basis_change has a dimension of A.shape as bound, not a dimension plus or minus a constant", floor=0)
+    for fq in fqs:
+        try:
+            f = flow.prog.func(fq)
+        except AnalysisError:
+            continue
+        dims = set()
+        for n in ast.walk(f.node):
+            if isinstance(n, ast.Assign) and isinstance(n.targets[0], ast.Tuple) and isinstance(n.value, ast.Attribute) and n.value.attr == "shape":
+                dims |= {x.id for x in n.targets[0].elts if isinstance(x, ast.Name)}
+        if not dims:
+            continue
+        def dim_offset(e):
+            """(dimension name, integer offset) of `dim`, `dim + c`, `dim - c`, `c + dim`"""
+            if isinstance(e, ast.Name) and e.id in dims:
+                return e.id, 0
+            if isinstance(e, ast.BinOp) and isinstance(e.op, (ast.Add, ast.Sub)):
+                l, r = e.left, e.right
+                if isinstance(l, ast.Name) and l.id in dims and isinstance(r, ast.Constant) and isinstance(r.value, int):
+                    return l.id, (r.value if isinstance(e.op, ast.Add) else -r.value)
+                if isinstance(e.op, ast.Add) and isinstance(r, ast.Name) and r.id in dims and isinstance(l, ast.Constant) and isinstance(l.value, int):
+                    return r.id, l.value
+            return None
+        for w in [x for x in ast.walk(f.node) if isinstance(x, ast.While)]:
+            for c in [x for x in ast.walk(w.test) if isinstance(x, ast.Compare) and len(x.ops) == 1 and isinstance(x.ops[0], (ast.Lt, ast.LtE, ast.Gt, ast.GtE))]:
+                op = c.ops[0]
+                # normalise to  cursor < dim + off   (exclusive upper bound)
+                if isinstance(op, (ast.Lt, ast.LtE)):
+                    d = dim_offset(c.comparators[0])
+                    excl = None if d is None else d[1] + (1 if isinstance(op, ast.LtE) else 0)
+                else:
+                    d = dim_offset(c.left)
+                    excl = None if d is None else d[1] + (1 if isinstance(op, ast.GtE) else 0)
+                if d is None:
+                    continue
+                if excl == 0:
+                    rep.ok("K17", 1, nontrivial=(fq, ast.unparse(c)), sample=f"{f.qualname}: while ... {ast.unparse(c)}")
+                else:
+                    rep.finding("K17", f"{fq}:{ast.unparse(c)}", f"{pyfacts.where(f, w)}: `{ast.unparse(c)}` bounds the elimination cursor by {d[0]}{excl:+d} (exclusive) instead of the dimension `{d[0]}` itself: " +
+                                ("the last row / column is never a pivot row / column" if excl < 0 else "the cursor runs past the matrix") + f" [while {ast.unparse(w.test)}]")
+
+
 def K15_junk_characters(rep, flow: Flow):
     rep.rule("K15", "the Pauli-string parser rejects (raises on) every character that is not one of I, X, Y, Z - probed with the lower-case letters, digits, blanks and foreign letters, at the first, a middle and the last position of a generator - and a sign character anywhere but in front is never read as a Pauli", floor=20, exhaustive=True)
     prog = flow.prog
